@@ -149,6 +149,28 @@ impl Module for M {
         ctx.expect(res.is_ok() && drawn == want, "C19:poly-draw", || {
             format!("vertices {:?} translate {:?}: drawn {} px, union has {}", vs, d, drawn.len(), want.len())
         });
+        // ... also on bounded targets that cut it on either side: what is inside the target is drawn (a polyline moved
+        // into view by its `translate` field is visible although its raw vertices are outside: seeded changes C19-r3-3 /
+        // C07-r3-1 skipped it by testing the UNtranslated box against the target)
+        if !spec.is_empty() {
+            let (x0, x1) = (spec.iter().map(|p| p.x).min().unwrap(), spec.iter().map(|p| p.x).max().unwrap());
+            let (y0, y1) = (spec.iter().map(|p| p.y).min().unwrap(), spec.iter().map(|p| p.y).max().unwrap());
+            let (w, h) = ((x1 - x0 + 1) as u32, (y1 - y0 + 1) as u32);
+            let (w3, h3) = ((w / 3) as i32 + 1, (h / 3) as i32 + 1);
+            for tl in [Point::new(x0 + w3, y0 + h3), Point::new(x0 - w3, y0 - h3), Point::new(x0, y0)] {
+                let b = embedded_graphics::primitives::Rectangle::new(tl, Size::new(w, h));
+                let mut r2: R2<BinaryColor> = R2::new(b);
+                let res = pl.into_styled(PrimitiveStyle::with_stroke(BinaryColor::On, 1)).draw(&mut r2);
+                let drawn: BTreeSet<(i32, i32)> = r2.rec.map.keys().map(|(y, x)| (*x, *y)).collect();
+                let wantb: BTreeSet<(i32, i32)> = want.iter().filter(|(x, y)| b.contains(Point::new(*x, *y))).copied().collect();
+                if wantb.len() != want.len() {
+                    ctx.count("poly:cut-by-a-bounded-target");
+                }
+                ctx.expect(res.is_ok() && drawn == wantb, "C19:poly-draw-on-bounded-target", || {
+                    format!("vertices {:?} translate {:?} box {}: drawn {} px, expected {}", vs, d, fmt_rect(&b), drawn.len(), wantb.len())
+                });
+            }
+        }
         pts_digest(&pts)
     }
 }
